@@ -304,6 +304,11 @@ def run_memcheck(ck, rng, rounds, stats):
         for i in range(14):
             text = truncated(rng) if i % 2 == 0 else hostile(rng)[:3000]
             msgs.append((sb.add(src, rng.choice(['new', 'cur']), text), text))
+        if name == 'attach':
+            # the three-level multiparts of the fixed corpus (an inner level of 40 parts below an unterminated one): with the allocator
+            # of the plain build the table of parts moves while the level above is still being read
+            for text in odd_messages()[:6]:
+                msgs.append((sb.add(src, 'new', text), text))
         args = ['-d'] if name == 'dry' else []
         conf = sb.write_conf(b'maildir "%s" {\n\t%s\n}\n' % (src.encode(), rule % {b'dst': dst.encode()}))
         rc, out, err = sb.run(args, conf=conf, env={'LC_ALL': 'C', 'MALLOC_PERTURB_': '190'}, kind='plain', timeout=TIME_LIMIT * 12, wrapper=VALGRIND)
